@@ -97,6 +97,8 @@ def source_facts():
     from tools import rs2coq
     facts = sf.regenerate(REPO, os.path.join(THEORIES, "Constants.v"))
     tr = rs2coq.regenerate(REPO, os.path.join(THEORIES, "Gen.v"))
+    from tools import rs2coq2
+    tr2 = rs2coq2.regenerate2(REPO, os.path.join(THEORIES, "Gen2.v"))
     census, cdiff = sf.census_diff(REPO)
     facts["panic_site_census_changes"] = cdiff
     facts["model_stale_warning"] = bool(cdiff)
@@ -105,6 +107,11 @@ def source_facts():
     if tr.get("fragments_not_found"):
         # not an error: that expression is tied to the model by the correspondence check only in this run (DESIGN.md section 13)
         facts["fragments_not_found"] = tr["fragments_not_found"]
+    facts["translated_whole_functions"] = tr2["translated2"]
+    if tr2["failed2"]:
+        # whole functions (tools/rs2coq2.py) now outside the translated subset: their translation at the pinned commit stands in,
+        # they are tied to the current source by the correspondence check only in this run
+        facts["translator2_fallbacks"] = tr2["failed2"]
     if tr["failed"]:
         # functions rewritten into syntax outside the translated subset: tied by the correspondence check only in this run
         facts["translator_fallbacks"] = tr["failed"]
